@@ -111,6 +111,65 @@ def h_reduce(x, n):
     return obl, obs
 
 
+DATA_SHAPES = [{"app": "x", "title": None}, {"app": "x", "url": "u"}, {"app": "x", "title": None}, {"app": "x"}, {}, {"app": "x", "title": ""}, {"app": "x", "title": 0},
+               {"app": "x", "n": [1, {"a": None}]}, {"app": "x", "n": [1, {"a": None}]}, {"app": "x", "n": [1, {}]}, {"title": None, "app": "x"}, {"app": "X", "title": None}]
+
+
+def h_merge_shapes(x):
+    """heartbeat_merge on two events whose data are drawn (by forking) from a pool of dict shapes — None values,
+    missing keys, same number of keys with different keys, nested values, key order: they merge iff the
+    data are equal as JSON documents (and the time rule holds), and the merged event carries the first's data"""
+    import json
+
+    i1 = x.choice("shape1", len(DATA_SHAPES))
+    i2 = x.choice("shape2", len(DATA_SHAPES))
+    t1 = x.zint("k0", 0, T_MAX_MS) * 1000
+    t2 = x.zint("k1", 0, T_MAX_MS) * 1000
+    d1 = x.zint("d0", -D_MAX_US, D_MAX_US)
+    d2 = x.zint("d1", -D_MAX_US, D_MAX_US)
+    p = x.zint("p", 0, P_MAX_US)
+    a = mk_event(x, t1, d1, deepcopy(DATA_SHAPES[i1]), aligned=False)
+    b = mk_event(x, t2, d2, deepcopy(DATA_SHAPES[i2]), aligned=False)
+    same = json.dumps(DATA_SHAPES[i1], sort_keys=True) == json.dumps(DATA_SHAPES[i2], sort_keys=True)
+    rule = And(t1 <= t2, t2 <= t1 + d1 + p, d1 >= 0)
+    r = HB.heartbeat_merge(a, b, x.seconds_us(p))
+    if r is None:
+        return [("none-only-if-data-differ-or-time-rule-fails", Not(rule) if same else True)], ["none", i1, i2]
+    return [("merged-only-if-data-equal", same), ("merged-only-if-time-rule-holds", rule), ("merged-keeps-first-data", json.dumps(r.data, sort_keys=True) == json.dumps(DATA_SHAPES[i1], sort_keys=True)),
+            ("second-keeps-its-data", b.data == DATA_SHAPES[i2])], ["merged", i1, i2]
+
+
+LARGE_PREFIXES = [98, 99, 126, 127, 254, 255, 498, 499, 510, 511, 998, 999, 1022, 1023]
+
+
+def h_reduce_large(x, k=4):
+    """long streams: a concrete prefix of P never-mergeable events (P chosen by forking just below common chunk
+    sizes), then k symbolic events; the result equals the left fold (behaviour that depends on the number of
+    events — chunking, batching — is in play)"""
+    P = LARGE_PREFIXES[x.choice("prefix", len(LARGE_PREFIXES))]
+    base = 1500000000000
+    pre = [mk_event(x, (base + 10000 * i) * 1000, 1000000, {"k": 100 + i}, aligned=True) for i in range(P)]
+    evs, raw, p = inputs(x, k)
+    for (t, d, l) in raw:
+        x.assume(t > (base + 10000 * P) * 1000)  # the symbolic tail comes after the prefix
+    x.assume(p < 5 * 10**6)  # prefix events are 10 s apart and 1 s long: never merged under a pulsetime below 5 s
+    out = HB.heartbeat_reduce(pre + deepcopy(evs), x.seconds_us(p))
+    ref = []
+    for trip in raw:
+        if ref:
+            m = ref_merge(ref[-1], trip, p)
+            if m is not None:
+                ref[-1] = m
+                continue
+        ref.append(trip)
+    tail = out[P:]
+    obl = [("prefix-kept", len(out) >= P and all(o.data == {"k": 100 + i} for i, o in enumerate(out[:P]))), ("fold-length", len(tail) == len(ref))]
+    if len(tail) == len(ref):
+        for j, (o, (t, d, l)) in enumerate(zip(tail, ref)):
+            obl.append(("fold-equal-%d" % j, And(ev_start(o) == t, ev_dur(o) == d, zv(o.data["k"]) == l)))
+    return obl, [P, len(out)]
+
+
 def h_reach(x):
     """reachability twin of h_merge: same assumptions and code, obligation False on the merged path"""
     evs, raw, p = inputs(x, 2)
@@ -123,6 +182,8 @@ def harnesses(tier):
     hs = [(Harness(PROP, "merge-pair", h_merge, {}, "heartbeat_merge on two events, all fields symbolic", cross_solver=20), 120)]
     hs.append((Harness(PROP, "merge-pair-float-semantics", C.with_floats(h_merge), {}, "heartbeat_merge on two events with IEEE double semantics for any float arithmetic, durations whole ms < 2^17 in binary range pieces", split_depth=7, fresh_solver=True), 600))
     hs.append((Harness(PROP, "reduce-n2-float-semantics", C.with_floats(h_reduce), dict(n=2), "heartbeat_reduce on 2 events with IEEE double semantics for any float arithmetic, durations whole ms < 2^17 in binary range pieces", split_depth=7, fresh_solver=True), 600))
+    hs.append((Harness(PROP, "merge-pair-data-shapes", h_merge_shapes, {}, "heartbeat_merge on two events with data drawn from %d dict shapes (None values, missing keys, nesting, key order), times symbolic" % len(DATA_SHAPES), split_depth=8), 600))
+    hs.append((Harness(PROP, "reduce-large-streams", h_reduce_large, dict(k=3 if tier == "quick" else 4), "heartbeat_reduce on streams of 98..1022 concrete never-mergeable events followed by %d symbolic ones" % (3 if tier == "quick" else 4), split_depth=8), 1800))
     ns = [2, 3] if tier == "quick" else [2, 3, 4, 5, 6, 7]
     for n in ns:
         hs.append((Harness(PROP, "reduce-n%d" % n, h_reduce, dict(n=n), "heartbeat_reduce on %d events vs left fold of the reference rule" % n, split_depth=8, cross_solver=3), 900))
@@ -137,7 +198,8 @@ def meta(chk, tier):
         "timestamps: any multiple of 1 ms in [1970, ~2103] (symbolic integer), any order, ties allowed",
         "durations: any integer microseconds in [-1e13, 1e13] (negative, zero, positive)",
         "pulsetime: any integer microseconds in [0, 1e12] passed as seconds (fractional values included)",
-        "data: one key with 2 possible symbolic tag values (equal / different)",
+        "data: one key with 2 possible symbolic tag values (equal / different); for pairs also %d concrete dict shapes" % len(DATA_SHAPES),
+        "long streams: %s concrete events followed by 3 (thorough: 4) symbolic ones" % LARGE_PREFIXES,
     ]
     chk.stubs = ["aw_core.models.int -> sym_int (truncation of exact ratio)", "aw_transform.heartbeats.timedelta -> sym_timedelta (exact: pulsetime seconds == given microseconds; float rounding of pulsetime not modelled)", "logging disabled"]
     chk.assumptions = [
